@@ -148,7 +148,7 @@ func runOneMutant(exe, prop, repo, verif, path string) mutantResult {
 	if err := exec.Command("diff", "-rq", "--exclude", ".git", repo, scratch).Run(); err == nil {
 		return res // no change
 	}
-	b := exec.Command("go", "build", "-tags", "unit", "./...")
+	b := exec.Command("go", "build", "-trimpath", "-tags", "unit", "./...")
 	b.Dir, b.Env = scratch, env
 	if err := b.Run(); err != nil {
 		return res
